@@ -34,6 +34,7 @@ import re
 import sys
 import copy
 import shutil
+import signal
 import tempfile
 import traceback
 
@@ -228,6 +229,14 @@ def stub_factory_ctors():
     a name no table can contain, then replace the constructors of everything
     which derives from the four base classes.
     '''
+    # importing the Popen executor installs SIGTERM / SIGINT handlers which
+    # do not terminate the process: worker processes of the pool would
+    # survive Pool.terminate().  Keep the handlers this process had.
+    saved = dict()
+    for sig in (signal.SIGTERM, signal.SIGINT):
+        try   : saved[sig] = signal.getsignal(sig)
+        except ValueError: pass
+
     bogus = _AgentSession({'agent_scheduler': '\0', 'agent_spawner': '\0',
                            'launch_methods' : {}})
     for call in (lambda: ResourceManager.get_manager('\0'),
@@ -243,6 +252,10 @@ def stub_factory_ctors():
                  AgentExecutingComponent):
         for cls in _subclasses(base):
             cls.__init__ = _stub_init
+
+    for sig, handler in saved.items():
+        try   : signal.signal(sig, handler)
+        except (ValueError, TypeError): pass
 
 
 # ------------------------------------------------------------------------------
